@@ -3,7 +3,7 @@ import json
 
 from .. import corr
 
-STREAMS = ["plugins"]
+STREAMS = ["plugins", "direct"]
 REGENERATE_SRC = True
 RULE = ("0..8 section plugins with random acyclic before/after graphs (plus constraints naming absent plugins, "
         "self-constraints, occasional cycles) given as list / tuple / set / generator / iterator, loaded twice, required flags, digests returning None or a value; configs = subsets "
@@ -270,16 +270,85 @@ def shrinks(case):
         yield {**case, "cfg": case["cfg"][:j] + case["cfg"][j + 1:]}
 
 
+# ---- stream "direct": load_configuration called with a hand-made list of plugins (several of them may digest the
+# same section: "any set of section plugins"); judged by the oracle only
+
+def gen_direct(rng):
+    n = rng.randint(0, 6)
+    secs = ["a", "b", "c", "pipeline"]
+    plugins = [{"section": rng.choice(secs), "required": rng.random() < 0.15, "returns": rng.random() < 0.6} for _ in range(n)]
+    cfg = [x for x in secs if rng.random() < 0.7]
+    return {"kind": "direct", "plugins": plugins, "cfg": cfg, "logging": rng.random() < 0.3}
+
+
+def impl_direct(case):
+    from cobald.daemon.config.mapping import load_configuration, ConfigurationError, SectionPlugin
+    from cobald.daemon.plugins import PluginRequirements
+    log, objs = [], []
+    for i, p in enumerate(case["plugins"]):
+        def digest(data, i=i, p=p):
+            log.append([i, data])
+            return ("kept", i) if p["returns"] else None
+        objs.append(SectionPlugin(section=p["section"], digest=digest, requirements=PluginRequirements(required=p["required"])))
+    cfg = {k: {"content-of": k} for k in case["cfg"]}
+    if case.get("logging"):
+        cfg["logging"] = {"version": 1}
+    try:
+        content = load_configuration(dict(cfg), tuple(objs))
+    except ConfigurationError:
+        return {"outcome": "ConfigurationError", "log": [l[0] for l in log]}
+    kept = []
+    for i, o in enumerate(objs):
+        hits = [v for k, v in content.items() if k is o]
+        if hits:
+            kept.append([i, hits[0] == ("kept", i)])
+    return {"outcome": "loaded", "log": [l[0] for l in log], "kept": kept, "entries": len(content),
+            "data_ok": all(l[1] is cfg[case["plugins"][l[0]]["section"]] for l in log)}
+
+
+def oracle_direct(case, o):
+    ps = case["plugins"]
+    unknown = [k for k in case["cfg"] if all(p["section"] != k for p in ps)]
+    if unknown:
+        if o["outcome"] != "ConfigurationError" or o["log"]:
+            return [("unknown-section", "unknown sections %r: outcome %r, plugins already called: %r" % (unknown, o["outcome"], o["log"]))]
+        return []
+    missing = [i for i, p in enumerate(ps) if p["required"] and p["section"] not in case["cfg"]]
+    if missing:
+        return [] if o["outcome"] == "ConfigurationError" else [("required-missing", "a required plugin's section is missing but loading gave %r" % o["outcome"])]
+    if o["outcome"] != "loaded":
+        return [("load-error", "loading a valid configuration raised %s" % o["outcome"])]
+    want = [i for i, p in enumerate(ps) if p["section"] in case["cfg"]]
+    out = []
+    if o["log"] != want:
+        out.append(("calls", "plugins called %r, expected each plugin whose section is present exactly once, in the given order: %r" % (o["log"], want)))
+    keep = [[i, True] for i in want if ps[i]["returns"]]
+    if o["kept"] != keep or o["entries"] != len(keep):
+        out.append(("results-not-kept", "results kept for %r (%d entries), expected every non-None result under its own plugin: %r" % (o["kept"], o["entries"], keep)))
+    if not o["data_ok"]:
+        out.append(("section-content", "a plugin was not called with exactly its section's content"))
+    return out
+
+
 def run(ctx):
     rng = ctx.rng("plugins")
     cases = [gen_case(rng) for _ in range(ctx.n(3000, 40000))]
     corr.run_stream(ctx, "plugins", cases, impl, line, oracle, nontrivial, shrinks, expect)
     for c in cases:
         ctx.tally("n=%d" % len(c["plugins"]))
+    rng = ctx.rng("direct")
+    direct = [gen_direct(rng) for _ in range(ctx.n(1500, 15000))]
+    corr.run_stream(ctx, "direct", direct, impl_direct, lambda c, o: None, oracle_direct,
+                    lambda c, o: len(c["plugins"]) >= 2 and o.get("outcome") == "loaded")
 
 
 def replay(payload):
     case = payload.get("case") or payload["disagreements"][0]["case"]
+    if case.get("kind") == "direct":
+        o = impl_direct(case)
+        v = oracle_direct(case, o)
+        print(json.dumps({"impl": o, "oracle": v}, indent=1))
+        return 1 if v else 0
     o = impl(case)
     v = oracle(case, o)
     print(json.dumps({"impl": o, "oracle": v}, indent=1))
